@@ -17,10 +17,12 @@ Leaf(T, v) == [k |-> "leaf", t |-> T, v |-> v]
 Longs == UNION { { Leaf("str", <<"str", Run(97, n)>>), Leaf("vec_u8", <<"bin", Run(7, n)>>),
                    Leaf("vec_i32", <<"arr", Run(U(7), n)>>) } : n \in LongLens }
 
-Init == /\ phase = "int"
-        /\ \E n \in (0 - SweepNeg)..SweepPos, T \in IntTypes : IntFits(U(n)[2], U(n)[3], T) /\ root = Leaf(T, U(n))
-Next == /\ phase = "int" /\ phase' = "long"
-        /\ root' \in Longs
+\* every scenario is an initial state (there is nothing to explore behind it)
+Init == \/ /\ phase = "int"
+           /\ \E n \in (0 - SweepNeg)..SweepPos, T \in IntTypes : IntFits(U(n)[2], U(n)[3], T) /\ root = Leaf(T, U(n))
+        \/ /\ phase = "long"
+           /\ root \in Longs
+Next == UNCHANGED vars
 Spec == Init /\ [][Next]_vars
 
 Tree == TreeOfRoot(root)
